@@ -87,6 +87,7 @@ func Load(dir string, overlay map[string][]byte, patterns ...string) (*Exec, []*
 			continue
 		}
 		initFn := sp.Func("init")
+		nf := len(ex.Findings)
 		st := &State{Heap: Heap{ex.base, map[ObjID]*Object{}}, NextObj: id + 1, Visits: map[*ssa.BasicBlock]int{}}
 		st.Gs = []*G{{ID: 0}}
 		ex.pushFrame(st, initFn, nil, nil, nil)
@@ -102,6 +103,9 @@ func Load(dir string, overlay map[string][]byte, patterns ...string) (*Exec, []*
 			ex.base[k] = v
 		}
 		id = last.NextObj
+		for i := nf; i < len(ex.Findings); i++ {
+			ex.Findings[i].Msg += " [init of " + ip + "]"
+		}
 	}
 	// os.Args is filled by the runtime, not by an initialiser: give the program a name
 	if osp := prog.ImportedPackage("os"); osp != nil {
